@@ -220,7 +220,57 @@ def run(ctx):
     if ctx.only in (None, 'c2s'):
         n = 400 if quick else 6000
         recs = []
+
+        def chain_case(i):
+            """two nested choice parents that are both short of the minimum, the deeper one satisfied by its
+            parent's LISTED markers alone; plus listed (query-present) genes at single-child parents"""
+            for _ in range(300):
+                tj = maptrace.random_tree(rng, 4, 7, 3)
+                hier = tj['hier']
+                if len(hier) < 3:
+                    continue
+                kid = [dict((a, b) for a, b in tj['kids'][k]) for k in range(len(hier) - 1)]
+                found = None
+                for k in range(len(hier) - 2):
+                    for a, cs in kid[k].items():
+                        if len(cs) < 2:
+                            continue
+                        for b in cs:
+                            if len(kid[k + 1][b]) >= 2:
+                                found = ([hier[k], a], [hier[k + 1], b])
+                if found:
+                    break
+            else:
+                return None
+            A, Bn = found
+            G = 8
+            minm = rng.randint(2, 3)
+            genes = list(range(1, G + 1))
+            rng.shuffle(genes)
+            kb = rng.randint(0, minm - 1)
+            ka = rng.randint(minm - kb, minm - 1) if minm - kb <= minm - 1 else minm - 1
+            own_b, own_a, rest = genes[:kb], genes[kb:kb + ka], genes[kb + ka:]
+            table = [[[0, 0], rest[:rng.randint(minm, len(rest))]], [A, own_a], [Bn, own_b]]
+            # listed, query-present genes at single-child parents: used nowhere, reported nowhere
+            for p in maptrace.all_parents(tj)[1:]:
+                kids = dict((a, b) for a, b in tj['kids'][tj['hier'].index(p[0])])[p[1]]
+                if len(kids) == 1 and rng.random() < 0.7:
+                    table.append([p, rng.sample(genes, 2)])
+            qg = list(genes)
+            rng.shuffle(qg)
+            return tj, G, table, qg, minm
+
         for i in range(n):
+            chain = chain_case(i) if i % 4 == 0 else None
+            if chain is not None:
+                tj, G, table, qg, minm = chain
+                scheme = ['reversed', 'structural', 'shared', 'reversed'][(i // 4) % 4]
+                rg = list(range(1, G + 1))
+                o = observe(tj, 0, table, qg, rg, minm, scheme, wd)
+                recs.append({'tree': tj, 'drop': 0, 'flat': False, 'table': table, 'qg': qg, 'rg': rg,
+                             'minm': minm, 'outcome': o['outcome'], 'genes': o['genes'],
+                             'paired': o['paired'], 'error': o['error'], 'events': [0]})
+                continue
             tj = maptrace.random_tree(rng, 5 if i % 2 else 4, 7, 2)
             G = rng.randint(3, 6)
             pars = maptrace.all_parents(tj)
